@@ -393,7 +393,7 @@ func (g *gen) genTxn() *TxnProg {
 	nops := r.Range(1, 6)
 	keyed := g.hasKey()
 	inserted := false
-	selected := false
+	selected := 0
 	keysUsed := map[string]bool{}
 	noDeleteWrites := false
 	if g.av.putThenDelete {
@@ -411,8 +411,10 @@ func (g *gen) genTxn() *TxnProg {
 			wts[0] = 0
 			wts[8] = p.wKey
 		}
-		if inserted || selected {
-			// selection operations only before the first insert, and at most one per transaction
+		if inserted || selected >= 3 {
+			// selection operations only before the first insert (the selection would hold the
+			// transaction's own reservation), and at most three per transaction: the selection
+			// taken by the first one persists and is narrowed/widened further by the later ones
 			wts[2], wts[4], wts[5], wts[6], wts[7] = 0, 0, 0, 0, 0
 		}
 		var op Op
@@ -440,18 +442,18 @@ func (g *gen) genTxn() *TxnProg {
 			if r.Chance(0.15) && !g.av.putThenDelete {
 				op.Writes = append(op.Writes[:0:0], Write{Delete: true})
 			}
-			selected = true
+			selected++
 		case 3:
 			op = Op{Kind: "delete", Target: Target{Mode: "live", K: r.Intn(64)}}
 		case 4:
 			op = Op{Kind: "deleteall", Filter: g.genFilter()}
-			selected = true
+			selected++
 		case 5:
 			op = Op{Kind: "count", Filter: g.genFilter()}
-			selected = true
+			selected++
 		case 6:
 			op = Op{Kind: "agg", Filter: g.genFilter(), Col: g.cols[r.Intn(len(g.cols))].Name}
-			selected = true
+			selected++
 		case 7:
 			op = Op{Kind: "ascend", Filter: g.genFilter()}
 			if len(g.sorts) > 0 {
@@ -459,7 +461,7 @@ func (g *gen) genTxn() *TxnProg {
 			} else {
 				op.Col = "nosort"
 			}
-			selected = true
+			selected++
 		case 8:
 			key := g.keys[r.Intn(len(g.keys))]
 			kinds := []string{"insertkey", "upsertkey", "upsertkey", "querykey", "deletekey"}
